@@ -78,6 +78,21 @@ Cfg swarm_cfg(Rng& r, const SwarmOpts& o) {
     return c;
 }
 
+void vary_machine(Rng& r, Cfg& c) {
+    unsigned nsteps = derive(c).laststep;
+    if (r.chance(0.3)) c.fs = std::round(r.uniform(2e4, 8e4));
+    if (r.chance(0.25)) c.rbend = std::round(r.uniform(3, 9) * 100) / 100;
+    if (r.chance(0.3)) { c.E0 = std::round(r.uniform(0.9e9, 1.8e9)); c.sE = std::round(r.uniform(3e-4, 7e-4) * 1e6) / 1e6; }
+    if (r.chance(0.25)) c.VRF = std::round(r.uniform(0.7e6, 2e6));
+    if (r.chance(0.2)) c.frev = std::round(r.uniform(2e6, 1.2e7));
+    if (r.chance(0.2)) { c.steps_per_rev = std::round(r.uniform(0.03, 0.4) * 1000) / 1000; if (derive(c).steps < 10) c.steps_per_rev = std::ceil(10.5 * derive(c).fs / derive(c).f_rev * 1000) / 1000; }
+    // keep the run length in steps and dependent quantities meaningful
+    Derived d = derive(c);
+    c.rotations = nsteps > 0 ? (nsteps - 0.5) / d.steps : 0;
+    if (c.rf_mod_freq > 0) c.rf_mod_freq = std::round(d.fs * r.uniform(0.5, 2.0));
+    if (c.tdamp > 0) c.tdamp = 2.0 / (d.fs * r.loguniform(2e-3, 2e-2) * d.steps);
+}
+
 std::string gen_tracking(Rng& r, const Cfg& c, long n) {
     Derived d = derive(c);
     std::string s;
